@@ -138,7 +138,7 @@ def declared_theorems(pid):
         body = _strip_comments(open(p, encoding="utf-8").read())
         if not re.search(r"^namespace\s+CmProps\." + pid + r"\s*$", body, re.M):
             continue
-        for m in re.finditer(r"^\s*(private\s+)?theorem\s+([A-Za-z_][\w.']*)", body, re.M):
+        for m in re.finditer(r"^\s*(private\s+)?theorem\s+([A-Za-z_][\w.'?!]*)", body, re.M):
             if not m.group(1):
                 names.append("CmProps.%s.%s" % (pid, m.group(2)))
     return names
